@@ -113,6 +113,17 @@ type zzActor struct {
 
 func (a *zzActor) Receive(c *Context) {
 	m := a.mon
+	if a.inc != m.incs {
+		// a delivery that ends in a receiver other than the one the Producer returned last
+		switch m.prop {
+		case 13:
+			zzrt.Fail("C13:middleware-chain-ends-in-a-stale-receiver")
+		case 4:
+			zzrt.Fail("C04:delivery-to-an-ended-incarnation")
+		case 5:
+			zzrt.Fail("C05:delivery-to-the-failed-incarnation-after-restart")
+		}
+	}
 	if m.prop == 13 {
 		// every delivery reaches the receiver through the whole chain, outermost first
 		ok := len(m.mwActive) == m.mwN
